@@ -11,7 +11,8 @@ RULE = ("Cases = (row-length vector with empty rows in any position incl. all-em
         "np.<name>, ufunc.reduce}, axis spelling -1/1, keepdims, operand fresh or pending view).  Oracle = the numpy "
         "reduction applied to each row alone (identity for empty rows comes from numpy): values and dtype; max/min/"
         "mean/argmax/argmin are compared on non-empty rows only; axis=None equals numpy on the concatenation.  "
-        "Non-trivial = an empty row in first/last/consecutive position or all rows empty, or a dtype other than int64.")
+        "Non-trivial = an empty row in first/last/consecutive position or all rows empty, or a dtype other than int64."
+        "  Every reduction is asked twice, the array returned first being overwritten by the caller in between.")
 ASSUMPTIONS = ["float content is exactly representable (dyadic pool) so that summation order cannot matter; hypot/"
                "logaddexp results within 4 ulp; means within 2 ulp",
                "max/min/argmax/argmin on zero-row arrays are outside the stated domain"]
@@ -108,11 +109,37 @@ def body_named(case, ctx):
     expect_unchanged(ra, rows, a["dt"], "reduce-operand")
 
 
+def plant_neutral(draw, a, f):
+    """now and then one or two rows hold nothing but the value that is neutral for the reduction in the row's element
+    type (lowest value for max, highest for min, 0 for sums, 1 for products, ...): the value an implementation may also
+    use for padding or for empty rows"""
+    dt, lens = a["dt"], a["lens"]
+    if draw(st.integers(0, 3)) != 0 or not any(lens):
+        return a
+    kind = {"max": "lo", "maximum": "lo", "argmax": "lo", "fmax": "lo", "min": "hi", "minimum": "hi", "argmin": "hi", "fmin": "hi",
+            "prod": 1, "multiply": 1, "all": 1, "logical_and": 1, "bitwise_and": "hi-bits"}.get(f, 0)
+    if dt == "bool":
+        v = kind in ("hi", 1, "hi-bits")
+    elif dt in gen.FLOAT_DT:
+        v = float("-inf") if kind == "lo" else float("inf") if kind in ("hi", "hi-bits") else float(kind)
+    else:
+        lo, hi = gen.int_range(dt)
+        v = lo if kind == "lo" else hi if kind == "hi" else (-1 if lo < 0 else hi) if kind == "hi-bits" else kind
+    vals = list(a["vals"])
+    nonempty = [i for i, l in enumerate(lens) if l]
+    for pick in draw(st.lists(st.integers(0, 50), min_size=1, max_size=2)):
+        i = nonempty[pick % len(nonempty)]
+        s0 = sum(lens[:i])
+        for j in range(s0, s0 + lens[i]):
+            vals[j] = v
+    return {"lens": lens, "dt": dt, "vals": vals}
+
+
 @st.composite
 def named_case(draw, tier):
     name = draw(st.sampled_from(["sum", "prod", "any", "all", "max", "min", "mean"]))
     mag = 2**40 if name == "mean" else None
-    a = draw(gen.ragged(tier, min_rows=0 if name in NAMED else 1, mag=mag))
+    a = plant_neutral(draw, draw(gen.ragged(tier, min_rows=0 if name in NAMED else 1, mag=mag)), name)
     spells = ["method", "np"] + (["ufunc"] if name in NAMED or name in ("max", "min") else [])
     spell = draw(st.sampled_from(spells))
     return {"a": a, "f": name, "spell": spell, "axis": draw(st.sampled_from([-1, 1])),
@@ -146,6 +173,8 @@ def body_ufunc(case, ctx):
 def ufunc_case(draw, tier):
     name = draw(st.sampled_from(IDENT_UFUNCS))
     a = draw(gen.ragged(tier, mag=64 if name in INEXACT else None))
+    if name not in INEXACT:
+        a = plant_neutral(draw, a, name)
     return {"a": a, "f": name, "axis": draw(st.sampled_from([-1, 1])), "lz": draw(st.sampled_from(LAZY_CHOICES))}
 
 
@@ -188,6 +217,7 @@ def arg_case(draw, tier):
         a = draw(gen.ragged(tier, min_rows=1))
     else:
         a = draw(gen.ragged(tier, min_rows=1, min_len=1))
+    a = plant_neutral(draw, a, name)
     return {"a": a, "f": name, "spell": draw(st.sampled_from(["method", "np"])), "axis": draw(st.sampled_from([-1, 1])),
             "lz": draw(st.sampled_from(LAZY_CHOICES))}
 
